@@ -97,3 +97,175 @@ Check C08_lzma_decompress_sized_exact : forall (fuel : positive) (o : options) (
        {| l_ds := ld_state dec; l_rc := r; l_src := s2; l_win := WCirc (circ_new (i_snk w) (N.max 4096 (le_num db)) (ld_memlimit dec)) |} = (Done tt, x) /\
      l_win x = WCirc c /\ c_len c = n /\ circ_finish c = (Done tt, i_snk w') /\ i_src w' = l_src x).
 Print Assumptions C08_lzma_decompress_sized_exact.
+
+From LZ Require Import Model.Stream Format.RefEnc Proofs.LzmaExactOpts Proofs.StreamSimLoop Proofs.StreamSimData Proofs.CutShortLzma Proofs.CutShort Proofs.StreamSize Proofs.StreamSizeFault.
+
+(* "input that runs out first is an error": EVERY strict prefix of a well-formed .lzma file (cut in the header, the coder preamble, any symbol, the flush bytes) is rejected, for all three header options and every reader fragmentation   [proved as lzma_truncated_rejected_all_options in Proofs/CutShort.v] *)
+Theorem C08_truncated_input_rejected :
+  forall (fp : fprops) (dict_field : N) (field : list N) (prog : list sym) (payload out : list N) 
+    (delta : N) (ief : ienc) (o : options) (frag : N -> N) (k : snk) (fuel : positive) 
+    (cut : list N),
+  f_lc fp <= 8 ->
+  f_lp fp <= 4 ->
+  f_pb fp <= 4 ->
+  dict_field < 2 ^ 32 ->
+  enc_payload_gen false fp (Some (N.max dict_field 4096)) prog delta = Some (payload, out) ->
+  LzmaExact.final_ienc fp (Some (N.max dict_field 4096)) prog = Some ief ->
+  nlen field = HeaderRules.size_field_len (o_unpacked o) ->
+  memlimit_ok (o_memlimit o) (N.max dict_field 4096) ->
+  stream_mode (HeaderRules.size_in_effect (o_unpacked o) (le_num field)) prog out delta [] ief ->
+  k_wfail k = None ->
+  k_ffail k = false ->
+  (length prog + 1 <= Pos.to_nat fuel)%nat ->
+  cut_of cut (hdr_bytes fp dict_field field ++ payload) ->
+  exists (x : err) (w' : io),
+    lzma_decompress fuel o {| i_src := src_of cut frag None; i_snk := k |} = (Failed x, w').
+Proof. exact (@lzma_truncated_rejected_all_options). Qed.
+Check C08_truncated_input_rejected :
+  forall (fp : fprops) (dict_field : N) (field : list N) (prog : list sym) (payload out : list N) 
+    (delta : N) (ief : ienc) (o : options) (frag : N -> N) (k : snk) (fuel : positive) 
+    (cut : list N),
+  f_lc fp <= 8 ->
+  f_lp fp <= 4 ->
+  f_pb fp <= 4 ->
+  dict_field < 2 ^ 32 ->
+  enc_payload_gen false fp (Some (N.max dict_field 4096)) prog delta = Some (payload, out) ->
+  LzmaExact.final_ienc fp (Some (N.max dict_field 4096)) prog = Some ief ->
+  nlen field = HeaderRules.size_field_len (o_unpacked o) ->
+  memlimit_ok (o_memlimit o) (N.max dict_field 4096) ->
+  stream_mode (HeaderRules.size_in_effect (o_unpacked o) (le_num field)) prog out delta [] ief ->
+  k_wfail k = None ->
+  k_ffail k = false ->
+  (length prog + 1 <= Pos.to_nat fuel)%nat ->
+  cut_of cut (hdr_bytes fp dict_field field ++ payload) ->
+  exists (x : err) (w' : io),
+    lzma_decompress fuel o {| i_src := src_of cut frag None; i_snk := k |} = (Failed x, w').
+Print Assumptions C08_truncated_input_rejected.
+
+(* format-independent form: if lzma_decompress accepts D ++ more having consumed more than |D| bytes then it rejects D (any options, any fragmentations)   [proved as lzma_cut_short_general in Proofs/CutShortLzma.v] *)
+Theorem C08_accepted_input_cannot_be_cut :
+  forall (fuel : positive) (o : options) (D more : list N) (frag frag' : N -> N) (k : snk) (w2' : io),
+  lzma_decompress fuel o {| i_src := src_of (D ++ more) frag None; i_snk := k |} = (Done tt, w2') ->
+  nlen D < s_pos (i_src w2') ->
+  exists (x : err) (w1' : io),
+    lzma_decompress fuel o {| i_src := src_of D frag' None; i_snk := k |} = (Failed x, w1').
+Proof. exact (@lzma_cut_short_general). Qed.
+Check C08_accepted_input_cannot_be_cut :
+  forall (fuel : positive) (o : options) (D more : list N) (frag frag' : N -> N) (k : snk) (w2' : io),
+  lzma_decompress fuel o {| i_src := src_of (D ++ more) frag None; i_snk := k |} = (Done tt, w2') ->
+  nlen D < s_pos (i_src w2') ->
+  exists (x : err) (w1' : io),
+    lzma_decompress fuel o {| i_src := src_of D frag' None; i_snk := k |} = (Failed x, w1').
+Print Assumptions C08_accepted_input_cannot_be_cut.
+
+(* the size rule through the streaming API (via C05): drive Done with a size in effect means exactly that many bytes were produced, with no size in effect the end marker was decoded   [proved as stream_size_rule in Proofs/StreamSize.v] *)
+Theorem C08_stream_size_rule :
+  forall (o : options) (k : snk) (pieces : list (list N)) (pbyte : N) (db ub t : list N),
+  o_allow_incomplete o = false ->
+  concat pieces = pbyte :: db ++ ub ++ t ->
+  nlen db = 4 ->
+  nlen ub = HeaderRules.size_field_len (o_unpacked o) ->
+  Forall (fun b : N => b < 256) (concat pieces) ->
+  nlen (concat pieces) < 140737488355328 ->
+  fst (drive (stream_new o k) pieces) = Done tt ->
+  pbyte < 225 /\
+  (exists (x : lw) (c : circ),
+     oneshot_stages big_fuel o k (snd (drive (stream_new o k) pieces)) pbyte db
+       (HeaderRules.size_in_effect (o_unpacked o) (le_num ub)) t x c /\
+     (forall n : N, HeaderRules.size_in_effect (o_unpacked o) (le_num ub) = Some n -> c_len c = n) /\
+     (HeaderRules.size_in_effect (o_unpacked o) (le_num ub) = None ->
+      rep0 (ds_rep (l_ds x)) = SizeRules.MARK /\ r_code (l_rc x) = 0)).
+Proof. exact (@stream_size_rule). Qed.
+Check C08_stream_size_rule :
+  forall (o : options) (k : snk) (pieces : list (list N)) (pbyte : N) (db ub t : list N),
+  o_allow_incomplete o = false ->
+  concat pieces = pbyte :: db ++ ub ++ t ->
+  nlen db = 4 ->
+  nlen ub = HeaderRules.size_field_len (o_unpacked o) ->
+  Forall (fun b : N => b < 256) (concat pieces) ->
+  nlen (concat pieces) < 140737488355328 ->
+  fst (drive (stream_new o k) pieces) = Done tt ->
+  pbyte < 225 /\
+  (exists (x : lw) (c : circ),
+     oneshot_stages big_fuel o k (snd (drive (stream_new o k) pieces)) pbyte db
+       (HeaderRules.size_in_effect (o_unpacked o) (le_num ub)) t x c /\
+     (forall n : N, HeaderRules.size_in_effect (o_unpacked o) (le_num ub) = Some n -> c_len c = n) /\
+     (HeaderRules.size_in_effect (o_unpacked o) (le_num ub) = None ->
+      rep0 (ds_rep (l_ds x)) = SizeRules.MARK /\ r_code (l_rc x) = 0)).
+Print Assumptions C08_stream_size_rule.
+
+(* the same down to the bytes that reached an arbitrary (short-writing, not yet failed) sink   [proved as stream_size_rule_any_sink in Proofs/StreamSizeFault.v] *)
+Theorem C08_stream_size_rule_any_sink :
+  forall (o : options) (k : snk) (pieces : list (list N)) (pbyte : N) (db ub t : list N),
+  o_allow_incomplete o = false ->
+  FaultTheorems.snk_hit k = false ->
+  concat pieces = pbyte :: db ++ ub ++ t ->
+  nlen db = 4 ->
+  nlen ub = HeaderRules.size_field_len (o_unpacked o) ->
+  Forall (fun b : N => b < 256) (concat pieces) ->
+  nlen (concat pieces) < 140737488355328 ->
+  fst (drive (stream_new o k) pieces) = Done tt ->
+  exists out : list N,
+    snk_bytes (snd (drive (stream_new o k) pieces)) = snk_bytes k ++ out /\
+    (forall n : N, HeaderRules.size_in_effect (o_unpacked o) (le_num ub) = Some n -> nlen out = n).
+Proof. exact (@stream_size_rule_any_sink). Qed.
+Check C08_stream_size_rule_any_sink :
+  forall (o : options) (k : snk) (pieces : list (list N)) (pbyte : N) (db ub t : list N),
+  o_allow_incomplete o = false ->
+  FaultTheorems.snk_hit k = false ->
+  concat pieces = pbyte :: db ++ ub ++ t ->
+  nlen db = 4 ->
+  nlen ub = HeaderRules.size_field_len (o_unpacked o) ->
+  Forall (fun b : N => b < 256) (concat pieces) ->
+  nlen (concat pieces) < 140737488355328 ->
+  fst (drive (stream_new o k) pieces) = Done tt ->
+  exists out : list N,
+    snk_bytes (snd (drive (stream_new o k) pieces)) = snk_bytes k ++ out /\
+    (forall n : N, HeaderRules.size_in_effect (o_unpacked o) (le_num ub) = Some n -> nlen out = n).
+Print Assumptions C08_stream_size_rule_any_sink.
+
+(* the three header options consume 13 / 13 / 5 header bytes (+5 coder bytes) in the streaming API as well, for every chunking of the header   [proved as stream_header_bytes_count in Proofs/StreamSize.v] *)
+Theorem C08_stream_header_bytes :
+  forall (o : options) (k : snk) (ds : list (list N)) (pbyte : N) (db ub rcb t : list N),
+  concat ds = pbyte :: db ++ ub ++ rcb ++ t ->
+  pbyte < 225 ->
+  nlen db = 4 ->
+  nlen ub = HeaderRules.size_field_len (o_unpacked o) ->
+  nlen rcb = 5 ->
+  exists
+    (ds1 : list (list N)) (d : list N) (ds2 : list (list N)) (s1 : stream) (n : N) (s2 : stream) 
+  (r : run_state),
+    ds = ds1 ++ d :: ds2 /\
+    StreamFinish.fed (stream_new o k) ds1 s1 /\
+    stream_write s1 d = (Done n, s2) /\
+    n <= nlen d /\
+    st_state s2 = Some (SData r) /\
+    nlen (st_tmp s2) <= nlen (concat ds1) + n /\
+    nlen (concat ds1) + n - nlen (st_tmp s2) = HeaderRules.header_len (o_unpacked o) + 5 /\
+    HeaderRules.header_len (o_unpacked o) = match o_unpacked o with
+                                            | UseProvided _ => 5
+                                            | _ => 13
+                                            end.
+Proof. exact (@stream_header_bytes_count). Qed.
+Check C08_stream_header_bytes :
+  forall (o : options) (k : snk) (ds : list (list N)) (pbyte : N) (db ub rcb t : list N),
+  concat ds = pbyte :: db ++ ub ++ rcb ++ t ->
+  pbyte < 225 ->
+  nlen db = 4 ->
+  nlen ub = HeaderRules.size_field_len (o_unpacked o) ->
+  nlen rcb = 5 ->
+  exists
+    (ds1 : list (list N)) (d : list N) (ds2 : list (list N)) (s1 : stream) (n : N) (s2 : stream) 
+  (r : run_state),
+    ds = ds1 ++ d :: ds2 /\
+    StreamFinish.fed (stream_new o k) ds1 s1 /\
+    stream_write s1 d = (Done n, s2) /\
+    n <= nlen d /\
+    st_state s2 = Some (SData r) /\
+    nlen (st_tmp s2) <= nlen (concat ds1) + n /\
+    nlen (concat ds1) + n - nlen (st_tmp s2) = HeaderRules.header_len (o_unpacked o) + 5 /\
+    HeaderRules.header_len (o_unpacked o) = match o_unpacked o with
+                                            | UseProvided _ => 5
+                                            | _ => 13
+                                            end.
+Print Assumptions C08_stream_header_bytes.
